@@ -532,9 +532,9 @@ def corpus():
                 bpms=[[R(0), R(150), R(4)]], svs=[[R(10), R(1.5)]])
     c.append(dict(claim="write", build="osu", ints=False, keys=4, chart=conv, _expect="D08"))
     c.append(dict(claim="write", build="sm", ints=True, keys=4, chart=conv, _expect="D08"))
-    # default-constructed metadata: InitialScrollVelocity: ''
+    # D29 (fixed): default-constructed metadata used to be written with InitialScrollVelocity: ''
     c.append(dict(claim="write", build="native", ints=False, keys=4,
-                  chart=dict(meta={}, hits=[[R(1), 0, []]], holds=[], bpms=[], svs=[]), _expect="C06-N1"))
+                  chart=dict(meta={}, hits=[[R(1), 0, []]], holds=[], bpms=[], svs=[]), _expect="D29"))
     # empty sections, hits only, holds only
     c.append(dict(claim="read", doc=_doc()))
     c.append(dict(claim="wr", doc=_doc(InitialScrollVelocity=1.0)))
@@ -882,8 +882,6 @@ def judge_written(drv, wire_doc, chart, domc, problems, findings):
         for sec, key in al["offending"]:
             if sec == "HitObjects" and key == "KeySounds" and n_nan == n_off:
                 findings.add("D08")
-            elif sec == "meta" and key == "InitialScrollVelocity" and dict((k, v) for k, v in chart["meta"]).get(key) == dict(t="str", v=""):
-                findings.add("C06-N1")
             else:
                 problems.append(f"not-allowed:{sec}.{key}")
     # denotation: KeySounds that are not lists cannot be denoted; judge the rest with them replaced by []
